@@ -593,4 +593,115 @@ theorem fn_calls_elem (O : Oracle) (q : Query) (i : Nat) (hn : q.name = .atom (.
     split <;> rfl
 
 
+/-! ### the CSS fragment -/
+
+theorem space_mem_joinSp (l : List PStr) (h : l.length > 1) : space ∈ joinSp l := by
+  match l, h with
+  | x :: y :: r, _ => simp [joinSp]
+
+theorem prefixedName_has_colon (e : Elem) (p : PStr) (h : prefixedName e = some p) : colon ∈ p := by
+  unfold prefixedName at h
+  split at h
+  · simp at h; subst h; simp
+  · simp at h
+
+theorem any_some_eq (l : List PStr) (c : PStr) : l.any ((fun x => x == some c) ∘ some) = decide (c ∈ l) := by
+  induction l with
+  | nil => simp
+  | cons x r ih =>
+    simp only [List.any_cons, ih, Function.comp, List.mem_cons]
+    by_cases hx : x = c
+    · simp [hx]
+    · have : ¬ c = x := fun h => hx h.symm
+      simp [hx, this]
+
+/-- where a simple selector and its `find_all` form are comparable on an element -/
+def Simple.Comparable (s : Simple) (e : Elem) : Prop :=
+  match s with
+  | .type n => colon ∉ n
+  | .cls c => space ∉ c ∧ ∀ x, getAttr e classKey ≠ some (.one x)
+  | .ident _ => ∀ l, getAttr e idKey ≠ some (.many l)
+  | .hasAttr a => getAttr e a ≠ some (.many [])
+  | .attrEq a _ => ∀ l, getAttr e a ≠ some (.many l)
+
+theorem css_elem (O : Oracle) (s : Simple) (e : Elem) (h : s.Comparable e) : s.holds e = sat O s.toQuery e := by
+  cases s with
+  | type n =>
+    simp only [Simple.Comparable] at h
+    by_cases ht : e.isTag = true
+    · cases hpe : prefixedName e with
+      | none =>
+        simp [Simple.holds, sat, Simple.toQuery, Query.noCriteria, Query.attrPairs, Query.hasTagCriteria, Crit.isNone,
+          ht, Crit.satName, Crit.atoms, Atom.isFn, Atom.sat, hpe]
+      | some p =>
+        have := prefixedName_has_colon e p hpe
+        have hne : p ≠ n := fun hh => h (hh ▸ this)
+        simp [Simple.holds, sat, Simple.toQuery, Query.noCriteria, Query.attrPairs, Query.hasTagCriteria, Crit.isNone,
+          ht, Crit.satName, Crit.atoms, Atom.isFn, Atom.sat, hpe, hne]
+    · simp [Simple.holds, sat, Simple.toQuery, Query.noCriteria, Query.attrPairs, Query.hasTagCriteria, Crit.isNone, ht]
+  | cls c =>
+    simp only [Simple.Comparable] at h
+    obtain ⟨hsp, hone⟩ := h
+    by_cases ht : e.isTag = true
+    · have hk : (if classUKey = classUKey then classKey else classUKey) = classKey := by simp
+      simp only [Simple.holds, sat, Simple.toQuery, Query.noCriteria, Query.attrPairs, Query.hasTagCriteria, Crit.isNone,
+        ht, List.map_nil, List.nil_append, List.map_cons]
+      cases hg : getAttr e classKey with
+      | none => simp [classList, hg, Crit.satAttr, attrValues, Crit.sat, Crit.atoms, Atom.sat]
+      | some av =>
+        cases av with
+        | one x => exact absurd hg (hone x)
+        | many l =>
+          have hj : l.length > 1 → joinSp l ≠ c := fun hl hh => hsp (hh ▸ space_mem_joinSp l hl)
+          by_cases hl : l.length > 1
+          · simp [classList, hg, Crit.satAttr, attrValues, Crit.sat, Crit.atoms, Atom.sat, joinedValue, 
+              List.contains_eq_mem, List.any_map]
+            rw [any_some_eq]
+            have : (joinSp l == c) = false := by simpa using hj hl
+            simp [this]
+          · simp [classList, hg, Crit.satAttr, attrValues, Crit.sat, Crit.atoms, Atom.sat, joinedValue, hl]
+            exact (any_some_eq l c).symm
+    · simp [Simple.holds, sat, Simple.toQuery, Query.noCriteria, Query.attrPairs, Query.hasTagCriteria, Crit.isNone, ht]
+  | ident i =>
+    simp only [Simple.Comparable] at h
+    by_cases ht : e.isTag = true
+    · have hk : (if idKey = classUKey then classKey else idKey) = idKey := by decide
+      simp only [Simple.holds, sat, Simple.toQuery, Query.noCriteria, Query.attrPairs, Query.hasTagCriteria, Crit.isNone,
+        ht, List.map_nil, List.nil_append, List.map_cons, hk]
+      cases hg : getAttr e idKey with
+      | none => simp [attrString, hg, Crit.satAttr, attrValues, Crit.sat, Crit.atoms, Atom.sat]
+      | some av =>
+        cases av with
+        | one x => simp [attrString, hg, Crit.satAttr, attrValues, Crit.sat, Crit.atoms, Atom.sat]
+        | many l => exact absurd hg (h l)
+    · simp [Simple.holds, sat, Simple.toQuery, Query.noCriteria, Query.attrPairs, Query.hasTagCriteria, Crit.isNone, ht]
+  | hasAttr a =>
+    simp only [Simple.Comparable] at h
+    by_cases ht : e.isTag = true
+    · simp only [Simple.holds, sat, Simple.toQuery, Query.noCriteria, Query.attrPairs, Query.hasTagCriteria, Crit.isNone,
+        ht, List.map_nil, List.append_nil, List.map_cons]
+      cases hg : getAttr e a with
+      | none => simp [hg, Crit.satAttr, attrValues, Crit.sat, Crit.atoms, Atom.sat]
+      | some av =>
+        cases av with
+        | one x => simp [hg, Crit.satAttr, attrValues, Crit.sat, Crit.atoms, Atom.sat]
+        | many l =>
+          cases l with
+          | nil => exact absurd hg h
+          | cons x r => simp [hg, Crit.satAttr, attrValues, Crit.sat, Crit.atoms, Atom.sat]
+    · simp [Simple.holds, sat, Simple.toQuery, Query.noCriteria, Query.attrPairs, Query.hasTagCriteria, Crit.isNone, ht]
+  | attrEq a v =>
+    simp only [Simple.Comparable] at h
+    by_cases ht : e.isTag = true
+    · simp only [Simple.holds, sat, Simple.toQuery, Query.noCriteria, Query.attrPairs, Query.hasTagCriteria, Crit.isNone,
+        ht, List.map_nil, List.append_nil, List.map_cons]
+      cases hg : getAttr e a with
+      | none => simp [attrString, hg, Crit.satAttr, attrValues, Crit.sat, Crit.atoms, Atom.sat]
+      | some av =>
+        cases av with
+        | one x => simp [attrString, hg, Crit.satAttr, attrValues, Crit.sat, Crit.atoms, Atom.sat]
+        | many l => exact absurd hg (h l)
+    · simp [Simple.holds, sat, Simple.toQuery, Query.noCriteria, Query.attrPairs, Query.hasTagCriteria, Crit.isNone, ht]
+
+
 end BS.Search
